@@ -351,6 +351,11 @@ def c05(pid, tier, replay):
                              "cfg": {"min": mn, "max": mx, "life": -1 if mx <= 600000 else 9000, "quiet": True,
                                      "offset": rng.randrange(0, 977)},
                              "steps": [{"op": "adv", "to": horizon}, {"op": "cancel", "term": rep % 2 == 0}]})
+        # long sessions: the index of the advertisement keeps growing (an index that wraps re-applies the initial cap)
+        longs = [((17000, 23000), 300), ((30000, 40000), 600)] + ([((200000, 600000), 300), ((17000, 23000), 70000)] if thorough else [])
+        for n, ((mn, mx), periods) in enumerate(longs):
+            scen.append({"id": "C05-long-%03d" % n, "cfg": {"min": mn, "max": mx, "life": -1, "quiet": True, "offset": rng.randrange(0, 977)},
+                         "steps": [{"op": "adv", "to": periods * (mx + 1000)}, {"op": "cancel", "term": False}]})
     rc = 0
     nviol = 0
     rows = []
